@@ -40,6 +40,7 @@ ASSUMPTIONS = [
     "one model run = one _solve round plus the queries of that round; rounds of a repeated solve use fresh channels and are modelled independently (the stale _ext_solver kept across a raising solve is not modelled; get_model after an unsat or raising solve is API misuse and not exercised)",
     "exit_on_exception=True makes the first exception win by design: failures_ignored is stated for exit_on_exception=False, and an error from a member that really raised is accepted when the option is on",
     "command histories are legal (never pop more levels than are open) and use no reset_assertions (Portfolio._reset_assertions is not decorated, unlike the TrackSolver model); solve(assumptions) takes any Boolean formulas: Portfolio._solve conjoins them into the formula of the round WITHOUT opening a level, so for the bookkeeping its model command is SSolve None (TrackSolver's `SSolve (Some f)` is the native wrappers' push-assert-pending_pop scheme, which Portfolio does not use); the round itself is judged on assertions + assumptions",
+    "container forms: a set / frozenset of solvers can only hold plain solver names, so for these forms each member is registered in the factory under its own name with its parameters as class defaults (for the ordered forms the (name, options) pairs are used); Portfolio([]) is expected to report InternalSolverError (model: ONoAnswer for the empty member list)",
     "members agree on the verdict (hypothesis of verdict_agreed); a member that answers wrongly is outside the property",
     "Queue.put is modelled as atomic with the child's move to the control loop (the feeder thread's delay only postpones a message that no longer matters once a winner exists)",
     "an exception object that cannot be unpickled in the parent (constructor with required arguments) is not modelled and not exercised",
@@ -51,7 +52,11 @@ RULE = ("scenarios: every assignment of {answer, raise|unknown, silent exit} to 
         "shapes with pop(1..2) right after the query x with/without get_model/get_value in between, then a contradicting assertion and "
         "solve; + 60 quick / 500 thorough random legal histories of 6-10 commands) on 2-3 member portfolios, mirrored on a reference "
         "frame stack (verdicts by truth table, models by evaluation, `assertions` read once at the end) and compared step by step with "
-        "models/TrackSolver.v; distinct = distinct (round configuration, observed outcome)")
+        "models/TrackSolver.v; argument container protocol (tag container: the 8 forms list/tuple/set/frozenset/generator/map/filter/iterator "
+        "for Portfolio(solvers_set=...) with 2 and 3 members and with a failing member (22 quick / 24 thorough) + the empty solvers_set (2); "
+        "8 forms x 2 member counts = 16 histories that pass the same content, and the empty container, to solve(assumptions=), "
+        "add_assertions() and get_values(); random histories draw a random form for each such call); "
+        "distinct = distinct (round configuration, observed outcome)")
 
 WATCHDOG = float(os.environ.get("VERIF_C19_WATCHDOG", "12"))
 BVW = 2
@@ -401,9 +406,15 @@ def worker(sc):
             elif kind == "add_many":
                 fs = [to_pysmt(a) for a in op[1]]
                 idxs = [fidx(f) for f in fs]
-                before = len(p._assertion_stack)
+                # a pending pop (left by a one-shot query) is cleared by the first add_assertion
+                was_pending = p.pending_pop
+                before = p._backtrack_points[-1] if was_pending else len(p._assertion_stack)
                 p.add_assertions(mk_container(op[2], fs))
-                emit_end({"end": k, "fidxs": idxs, "added": [ftab.get(a, 9999) for a in p._assertion_stack[before:]]})
+                if was_pending and p.pending_pop:
+                    added = []            # no add_assertion was made at all
+                else:
+                    added = [ftab.get(a, 9999) for a in p._assertion_stack[before:]]
+                emit_end({"end": k, "fidxs": idxs, "added": added})
             elif kind == "get_values":
                 exprs, meta = [], {}
                 for (name, isbv) in op[1]:
@@ -1027,9 +1038,9 @@ def random_history(rnd):
         elif c < 0.8:
             r.do(["solve"])
         elif c < 0.88:
-            r.do(["solve_assuming", [rnd.choice(H_POOL) for _ in range(rnd.choice([0, 1, 1, 2]))], rnd.choice(FORMS)])
+            r.do(["solve_assuming", rnd.sample(H_POOL, rnd.choice([0, 1, 1, 2])), rnd.choice(FORMS)])
         elif c < 0.91:
-            r.do(["add_many", [rnd.choice(H_POOL) for _ in range(rnd.choice([0, 1, 2, 3]))], rnd.choice(FORMS)])
+            r.do(["add_many", rnd.sample(H_POOL, rnd.choice([0, 1, 2, 3])), rnd.choice(FORMS)])
         elif c < 0.95 and r.model:
             r.queries(rnd.choice(["m", "v", rnd.choice(FORMS)]), [r.ops[-1][1]] if last in ONESHOT else (r.ops[-1][1] if last == "solve_assuming" else []))
         elif depth:
